@@ -188,7 +188,8 @@ impl VariantSpec {
     }
 
     /// the `strum(..)` items of this variant in canonical order
-    fn strum_items(&self) -> Vec<String> {
+    fn strum_items(&self, lf: LitForm, nf: IntForm) -> Vec<String> {
+        let lit = |s: &str| lit_form(s, lf);
         let mut it = Vec::new();
         for s in &self.serialize {
             it.push(format!("serialize = {}", lit(s)));
@@ -227,7 +228,7 @@ impl VariantSpec {
                     let key = if is_strict_keyword(k) { k.clone() } else { k.clone() };
                     match v {
                         PropLit::S(s) => format!("{} = {}", key, lit(s)),
-                        PropLit::I(i) => format!("{} = {}", key, i),
+                        PropLit::I(i) => format!("{} = {}", key, int_form(*i, nf)),
                         PropLit::B(b) => format!("{} = {}", key, b),
                     }
                 })
@@ -269,6 +270,11 @@ pub struct EnumSpec {
     /// raw extra attributes placed on the enum (e.g. strum_discriminants(..))
     pub extra_attrs: Vec<String>,
     pub variants: Vec<VariantSpec>,
+    /// surface-syntax choices that do not change the meaning of the definition:
+    /// "raw-literals", "escaped-literals", "hex-ints", "underscore-ints", "suffixed-ints",
+    /// "trailing-commas", "cfg_attr", "block-docs"
+    #[serde(default)]
+    pub syntax: Vec<String>,
 }
 
 /// declaration order is deliberately not alphabetical (nor is the order of the re-cased names), so that a
@@ -292,6 +298,7 @@ impl EnumSpec {
             crate_path: None,
             extra_attrs: vec![],
             variants: (0..n).map(|i| VariantSpec::unit(BASE_IDENTS[i % 8])).collect(),
+            syntax: vec![],
         }
     }
 
@@ -347,6 +354,8 @@ impl EnumSpec {
 
     /// enum-level `strum(..)` items
     fn strum_items(&self) -> Vec<String> {
+        let lf = self.lit_form();
+        let lit = |s: &str| lit_form(s, lf);
         let mut it = Vec::new();
         if let Some(s) = &self.serialize_all {
             it.push(format!("serialize_all = {}", lit(s)));
@@ -374,6 +383,106 @@ impl EnumSpec {
     }
 }
 
+#[derive(Clone, Copy, PartialEq)]
+pub enum LitForm {
+    Plain,
+    Raw,
+    Escaped,
+}
+
+#[derive(Clone, Copy, PartialEq)]
+pub enum IntForm {
+    Dec,
+    Hex,
+    Underscore,
+    Suffixed,
+}
+
+/// the same string written as a raw string literal / with every letter and non-ASCII char escaped
+pub fn lit_form(s: &str, f: LitForm) -> String {
+    match f {
+        LitForm::Plain => lit(s),
+        LitForm::Raw => {
+            if s.contains('\r') {
+                return lit(s); // a bare CR cannot appear in a raw string
+            }
+            let mut n = 1;
+            while s.contains(&format!("\"{}", "#".repeat(n))) {
+                n += 1;
+            }
+            format!("r{h}\"{s}\"{h}", h = "#".repeat(n), s = s)
+        }
+        LitForm::Escaped => {
+            let mut o = String::from("\"");
+            for c in s.chars() {
+                match c {
+                    '"' => o.push_str("\\\""),
+                    '\\' => o.push_str("\\\\"),
+                    '\n' => o.push_str("\\n"),
+                    '\t' => o.push_str("\\t"),
+                    '\r' => o.push_str("\\r"),
+                    c if c.is_ascii_alphabetic() => o.push_str(&format!("\\x{:02x}", c as u32)),
+                    c if !c.is_ascii() => o.push_str(&format!("\\u{{{:x}}}", c as u32)),
+                    c => o.push(c),
+                }
+            }
+            o.push('"');
+            o
+        }
+    }
+}
+
+pub fn int_form(i: i64, f: IntForm) -> String {
+    if i == i64::MIN {
+        return i.to_string(); // only the decimal form of i64::MIN is a valid negated literal
+    }
+    let (neg, a) = (i < 0, i.unsigned_abs());
+    let body = match f {
+        IntForm::Dec => a.to_string(),
+        IntForm::Hex => format!("0x{:X}", a),
+        IntForm::Underscore => {
+            let d = a.to_string();
+            if d.len() >= 2 {
+                format!("{}_{}", &d[..1], &d[1..])
+            } else {
+                format!("{}_", d)
+            }
+        }
+        IntForm::Suffixed => format!("{}i64", a),
+    };
+    if neg {
+        format!("-{}", body)
+    } else {
+        body
+    }
+}
+
+impl EnumSpec {
+    pub fn lit_form(&self) -> LitForm {
+        if self.syntax.iter().any(|x| x == "raw-literals") {
+            LitForm::Raw
+        } else if self.syntax.iter().any(|x| x == "escaped-literals") {
+            LitForm::Escaped
+        } else {
+            LitForm::Plain
+        }
+    }
+    pub fn int_form(&self) -> IntForm {
+        if self.syntax.iter().any(|x| x == "hex-ints") {
+            IntForm::Hex
+        } else if self.syntax.iter().any(|x| x == "underscore-ints") {
+            IntForm::Underscore
+        } else if self.syntax.iter().any(|x| x == "suffixed-ints") {
+            IntForm::Suffixed
+        } else {
+            IntForm::Dec
+        }
+    }
+    pub fn has_syntax(&self, k: &str) -> bool {
+        self.syntax.iter().any(|x| x == k)
+    }
+}
+
 /// Rust string literal for `s` (plain escaped form; always a valid literal)
 pub fn lit(s: &str) -> String {
     let mut o = String::from("\"");
@@ -391,17 +500,25 @@ pub fn lit(s: &str) -> String {
     o
 }
 
-fn layout_attrs(items: Vec<String>, layout: Layout, indent: &str) -> String {
+fn layout_attrs(items: Vec<String>, layout: Layout, indent: &str, syntax: &[String]) -> String {
     if items.is_empty() {
         return String::new();
     }
+    let tc = if syntax.iter().any(|x| x == "trailing-commas") { "," } else { "" };
+    let wrap = |inner: String| -> String {
+        if syntax.iter().any(|x| x == "cfg_attr") {
+            format!("{}#[cfg_attr(all(), strum({}{}))]\n", indent, inner, tc)
+        } else {
+            format!("{}#[strum({}{})]\n", indent, inner, tc)
+        }
+    };
     match layout {
-        Layout::Single => format!("{}#[strum({})]\n", indent, items.join(", ")),
-        Layout::Split => items.iter().map(|i| format!("{}#[strum({})]\n", indent, i)).collect(),
+        Layout::Single => wrap(items.join(", ")),
+        Layout::Split => items.iter().map(|i| wrap(i.clone())).collect(),
         Layout::Reversed => {
             let mut r = items;
             r.reverse();
-            format!("{}#[strum({})]\n", indent, r.join(", "))
+            wrap(r.join(", "))
         }
     }
 }
@@ -416,7 +533,7 @@ pub fn render_enum(spec: &EnumSpec, derives: &[&str]) -> String {
             o.push_str(&format!("#[repr({})]\n", part.trim()));
         }
     }
-    o.push_str(&layout_attrs(spec.strum_items(), Layout::Single, ""));
+    o.push_str(&layout_attrs(spec.strum_items(), Layout::Single, "", &spec.syntax));
     for a in &spec.extra_attrs {
         o.push_str(a);
         o.push('\n');
@@ -432,13 +549,15 @@ pub fn render_enum(spec: &EnumSpec, derives: &[&str]) -> String {
     for (vi, v) in spec.variants.iter().enumerate() {
         for (d, form) in &v.docs {
             match form {
+                // a one-line block comment carries exactly the same text as the line comment
+                DocForm::Comment if spec.has_syntax("block-docs") && !d.is_empty() && !d.starts_with('*') && !d.starts_with('/') && !d.contains("*/") && !d.contains('\n') => o.push_str(&format!("    /**{}*/\n", d)),
                 DocForm::Comment => o.push_str(&format!("    ///{}\n", d)),
-                DocForm::Attr => o.push_str(&format!("    #[doc = {}]\n", lit(d))),
+                DocForm::Attr => o.push_str(&format!("    #[doc = {}]\n", lit_form(d, spec.lit_form()))),
             }
         }
         let items: Vec<String> =
-            v.strum_items().into_iter().map(|s| s.replace("dw_v", &format!("dw_{}", vi))).collect();
-        o.push_str(&layout_attrs(items, v.layout, "    "));
+            v.strum_items(spec.lit_form(), spec.int_form()).into_iter().map(|s| s.replace("dw_v", &format!("dw_{}", vi))).collect();
+        o.push_str(&layout_attrs(items, v.layout, "    ", &spec.syntax));
         for a in &v.extra_attrs {
             o.push_str("    ");
             o.push_str(a);
@@ -588,4 +707,28 @@ pub fn render_default_value(spec: &EnumSpec, vi: usize) -> String {
         Kind::Named(fs) => fs.iter().map(|f| f.ty.const_default_expr()).collect(),
     };
     render_ctor(spec, vi, &fields)
+}
+
+impl EnumSpec {
+    /// does the definition contain a string literal inside a strum attribute / any strum attribute at all?
+    pub fn has_strum_literal(&self) -> bool {
+        self.serialize_all.is_some()
+            || self.prefix.is_some()
+            || self.variants.iter().any(|v| {
+                !v.serialize.is_empty()
+                    || v.to_string.is_some()
+                    || v.message.is_some()
+                    || v.detailed_message.is_some()
+                    || v.props.iter().flatten().any(|(_, l)| matches!(l, PropLit::S(_)))
+                    || v.docs.iter().any(|(_, f)| *f == DocForm::Attr)
+            })
+    }
+    pub fn has_strum_attr(&self) -> bool {
+        self.has_strum_literal()
+            || self.aci
+            || self.use_phf
+            || self.parse_err
+            || self.const_into_str
+            || self.variants.iter().any(|v| v.disabled || v.default || v.transparent || v.default_with || v.aci.is_some() || !v.props.is_empty())
+    }
 }
